@@ -112,7 +112,7 @@ def fn_HashAddr : GoSem.Fn :=
     .retIf (.oneOf (.len 0) [4]) (.bin .mul .i64 (.conv .i64 (.var 2)) (.conv .i64 (.var 2))),
     .retIf (.oneOf (.len 0) [8]) (.var 3),
     .ret (.conv .i64 (.var 4))] }
-def fn_HashAddr.names : List (String × Nat) := [("src", 0), ("ToInt(src)", 1), ("c", 2), ("ToLong(src)", 3), ("Hash(src)", 4)]
+def fn_HashAddr.names : List (String × Nat) := [("src", 0), ("ToInt(#0)", 1), ("c", 2), ("ToLong(#0)", 3), ("Hash(#0)", 4)]
 
 def fn_ToInt : GoSem.Fn :=
   { params := [], result := .i32, body := [
@@ -189,6 +189,7 @@ def loop_to_long.body : List GoSem.Stmt := [
     .set 2 (.bin .sub .i64 (.var 2) (.var 6))]
 def loop_to_long.after : List GoSem.Stmt := [
     .ret (.neg .i64 (.var 2))]
+def loop_to_long.header : List String := ["#1 := 0", "#1 < len(#0)", "#1++"]
 def loop_to_long.names : List (String × Nat) := [("s", 0), ("i", 1), ("result", 2), ("findc", 3), ("multmin", 4), ("limit", 5), ("digit", 6)]
 
 def fn_findc : GoSem.Fn :=
